@@ -211,7 +211,7 @@ def density():
 
 
 def dipoles():
-    """dipole moment = sum_i q_i r_i, r_i rebuilt from minimum-image displacements to the molecule's first atom and to atom 0"""
+    """dipole moment = sum_i q_i (r_i - r_0), r_i - r_0 rebuilt from minimum-image displacements (molecule's first atom -> i) + (atom 0 -> first atom)"""
     import mdtraj.geometry.thermodynamic_properties as M
     S.new_ctx(timeout_ms=30000)
     M.np = NP()
@@ -241,14 +241,27 @@ def dipoles():
     t = types.SimpleNamespace(top=types.SimpleNamespace(atoms=atoms))
     mom = M.dipole_moments(t, charges)
     G = Goals(30000)
+    # INDEPENDENT definition: mu = sum_i q_i (r_i - r_0), with r_i - r_0 rebuilt from minimum-image displacements as (first atom of i's molecule -> i)
+    # + (atom 0 -> that first atom); compute_displacements(pairs (a, b)) is the displacement FROM a TO b (C05).  A displacement the code asked for in
+    # the opposite direction is the negative of the same physical vector.
+    def disp(a, b, c):
+        if a == b:
+            return z3.RealVal(0)
+        if (a, b, c) in D:
+            return tz(D[(a, b, c)])
+        if (b, a, c) in D:
+            return -tz(D[(b, a, c)])
+        return None
     for c in range(3):
         want = z3.RealVal(0)
+        ok = True
         for i in range(N):
-            # documented pairs (a, b) mean displacement FROM a TO b: local = (i -> first atom of its residue), molecule = (first -> atom 0)
-            loc = tz(D[(i, res_first[i], c)]) if i != res_first[i] else z3.RealVal(0)
-            mol = tz(D[(res_first[i], 0, c)]) if res_first[i] != 0 else z3.RealVal(0)
+            loc, mol = disp(res_first[i], i, c), disp(0, res_first[i], c)
+            if loc is None or mol is None:
+                ok = False
+                break
             want = want + tz(q[i]) * (loc + mol)
-        G.add(f"dipole[{c}]", [], tz(mom[0, c]) == want, {})
+        G.add(f"dipole[{c}]", [], (tz(mom[0, c]) == want) if ok else z3.BoolVal(False), {})
     return G.run(_rp.replay("dipoles"))
 
 
